@@ -302,7 +302,7 @@ prop("C05", harness="h_approx",
      assumptions=["exact weight domain", "Graph has an interior edge_weight property of the weight type (required by BaseApproxSpannerAlgorithm)"])
 prop("C06", harness="h_approx",
      quick=dict(shards=16, cases=3000, env={"VERIF_MAXN": "12"},
-                extra_phases=[dict(shards=16, cases=200, env={"VERIF_MAXN": "32", "VERIF_MAXM": "90"}, seed_offset=400)]),
+                extra_phases=[dict(shards=16, cases=200, env={"VERIF_MAXN": "48", "VERIF_MAXM": "110"}, seed_offset=400)]),
      thorough=dict(shards=16, cases=20000, env={"VERIF_MAXN": "30"},
                    extra_phases=[dict(shards=16, cases=1200, env={"VERIF_MAXN": "45", "VERIF_MAXM": "140"}, seed_offset=400)]),
      rule="As C05 plus k=0; oracle: exact integer comparison sum <= (2k-1)*opt and sum >= opt against the reference optimum (brute force / de Pina); "
@@ -372,7 +372,8 @@ prop("C13", harness="h_comp",
 prop("C14", harness="h_comp",
      quick=dict(shards=16, cases=3000, env={"VERIF_MAXN": "12"},
                 extra_phases=[dict(shards=16, cases=150, env={"VERIF_MAXN": "30", "VERIF_MAXM": "90"}, seed_offset=400),
-                              dict(shards=16, cases=25, env={"VERIF_MAXN": "100", "VERIF_MAXM": "220"}, seed_offset=450)]),
+                              dict(shards=16, cases=25, env={"VERIF_MAXN": "100", "VERIF_MAXM": "220"}, seed_offset=450),
+                              dict(shards=16, cases=60, env={"VERIF_PROFILE": "dense", "VERIF_MAXN": "18"}, seed_offset=480)]),
      thorough=dict(shards=16, cases=20000, env={"VERIF_MAXN": "20"},
                    extra_phases=[dict(shards=16, cases=1200, env={"VERIF_MAXN": "45", "VERIF_MAXM": "140"}, seed_offset=400)]),
      rule="Generated graphs x exact palettes x {double,int}; Horton, FVS and ISO builders called directly. Oracle per candidate: edge not a "
